@@ -341,13 +341,17 @@ class Check(FormulaCheck):
             depth = [0]
             reenter = rnd.random() < 0.3          # a listener that evaluates another formula on the same parser while its event is delivered
             nested_f = rnd.choice(['Q7+1', 'foo&"x"', 'FA(2)', 'Q7:R9', '1+', 'SUM(Q7,foo)'])
+            # what a listener *returns* is nobody's business: one-line lambdas return their setter call's result, others return anything
+            returns = [rnd.choice(['none', 'none', 'first-setter-result', 'all-setter-results', 'junk']) for _ in script]
+            junk = [rnd.choice(['ignored', 99, (1, 2), 0, False, [5]]) for _ in script]
             for li, vals in enumerate(script):
-                def listener(*a, _vals=vals, _li=li):
+                def listener(*a, _vals=vals, _li=li, _ret=returns[li], _junk=junk[li]):
                     if depth[0]:
                         return            # events of the nested evaluation: observe only
                     calls.append(_li)
+                    got = []
                     for k, v in enumerate(_vals):
-                        a[-1](v)
+                        got.append(a[-1](v))
                         if reenter and k == 0:
                             depth[0] += 1
                             try:
@@ -360,6 +364,13 @@ class Check(FormulaCheck):
                             p.parse(nested_f)
                         finally:
                             depth[0] -= 1
+                    if _ret == 'first-setter-result':
+                        return got[0] if got else 'nothing-set'
+                    if _ret == 'all-setter-results':
+                        return tuple(got)
+                    if _ret == 'junk':
+                        return _junk
+                    return None
                 p.on(evname, listener)
             if reenter:
                 # the nested formula's own references also raise events on this parser: give them values through separate listeners
@@ -372,7 +383,12 @@ class Check(FormulaCheck):
             exp = flat[-1] if flat else base
             ok = r['error'] is None and (r['result'] is exp or canon(r['result']) == canon(exp))
             falsy = bool(flat) and not flat[-1] and flat[-1] is not None
-            self.expect('C10/setter:%s%s' % (kind, ':reentrant-listener' if (reenter and nl and not ok) else (':falsy-value-ignored' if (falsy and not ok) else (':no-listener-not-blank' if not nl and not ok else ''))), ok,
+            returning = any(x != 'none' for x in returns)
+            tag = ''
+            if not ok:
+                tag = (':reentrant-listener' if (reenter and nl) else ':falsy-value-ignored' if falsy else ':listener-return-value-used' if returning
+                       else ':no-listener-not-blank' if not nl else '')
+            self.expect('C10/setter:%s%s' % (kind, tag), ok, listener_returns=returns,
                         formula=f, script=script, record=r, expected=exp)
             self.expect('C10/events:%s-listeners-not-each-called-once' % kind, calls == list(range(nl)), formula=f, calls=calls, listeners=nl)
             rec.nt((f, repr(script)))
